@@ -29,15 +29,24 @@ pub struct Item {
 pub struct Sc {
     pub role_server: bool,
     pub items: Vec<Item>,
+    /// foreign traffic sent before the session exists: bit 0 datagram, bit 1 uni stream, bit 2 bidi stream (0 = none)
+    pub early: u8,
+    /// 0: before the peer's own SETTINGS / request (server role) or before the response (client role);
+    /// 1: while the request is pending because the server application waits 1 s before accepting (server role)
+    pub early_when: u8,
+    pub early_sid: u64,
 }
 
 impl Sc {
     pub fn to_json(&self) -> Value {
-        json!({"role_server": self.role_server, "items": self.items.iter().map(|i| json!([i.kind, i.sid, i.live, i.ending, i.payload_len])).collect::<Vec<_>>()})
+        json!({"role_server": self.role_server, "early": self.early, "early_when": self.early_when, "early_sid": self.early_sid, "items": self.items.iter().map(|i| json!([i.kind, i.sid, i.live, i.ending, i.payload_len])).collect::<Vec<_>>()})
     }
     pub fn from_json(v: &Value) -> Sc {
         Sc {
             role_server: v["role_server"].as_bool().unwrap(),
+            early: v["early"].as_u64().unwrap_or(0) as u8,
+            early_when: v["early_when"].as_u64().unwrap_or(0) as u8,
+            early_sid: v["early_sid"].as_u64().unwrap_or(0),
             items: v["items"].as_array().unwrap().iter().map(|i| Item { kind: i[0].as_u64().unwrap() as u8, sid: i[1].as_u64().unwrap(), live: i[2].as_bool().unwrap(), ending: i[3].as_u64().unwrap() as u8, payload_len: i[4].as_u64().unwrap() as usize }).collect(),
         }
     }
@@ -53,7 +62,10 @@ fn payload(idx: usize, live: bool, len: usize) -> Vec<u8> {
 pub async fn run(sc: Sc) -> Result<String, String> {
     let world = World::new(47);
     let tw = Tweak::default();
-    let (conn, raw, rs, _keep): (wtransport::Connection, Raw, RawSession, Box<dyn std::any::Any>) = if sc.role_server {
+    let mut foreign_streams: Vec<(Item, quinn::SendStream)> = vec![];
+    let (conn, raw, rs, _keep): (wtransport::Connection, Raw, RawSession, Box<dyn std::any::Any>) = if sc.early != 0 {
+        early_setup(&world, &tw, &sc, &mut foreign_streams).await?
+    } else if sc.role_server {
         let r = raw_vs_server(&world, &tw, &tw).await?;
         (r.sconn, r.raw, r.rs, Box::new(r.server_ep))
     } else {
@@ -118,7 +130,6 @@ pub async fn run(sc: Sc) -> Result<String, String> {
     });
     settle_ms(10).await;
     // the peer's traffic
-    let mut foreign_streams: Vec<(usize, quinn::SendStream)> = vec![];
     let mut live_expected: Vec<(u8, Vec<u8>)> = vec![];
     for (idx, it) in sc.items.iter().enumerate() {
         let sid = if it.live { live_sid } else { it.sid };
@@ -159,7 +170,7 @@ pub async fn run(sc: Sc) -> Result<String, String> {
                     }
                     raw.hold(s);
                 } else {
-                    foreign_streams.push((idx, s));
+                    foreign_streams.push((it.clone(), s));
                 }
             }
         }
@@ -185,8 +196,7 @@ pub async fn run(sc: Sc) -> Result<String, String> {
     }
     // foreign streams with a valid (client-initiated bidirectional) session id are refused with the registered code
     let mut refused = 0;
-    for (idx, mut s) in foreign_streams {
-        let it = &sc.items[idx];
+    for (it, mut s) in foreign_streams {
         match within(200, s.stopped()).await {
             Some(Ok(Some(code))) => {
                 if code.into_inner() != rc::reg::WEBTRANSPORT_BUFFERED_STREAM_REJECTED {
@@ -204,6 +214,96 @@ pub async fn run(sc: Sc) -> Result<String, String> {
     t2.abort();
     t3.abort();
     Ok(format!("live_delivered={} foreign_refused={refused} app_items={}", live_expected.len(), got.len()))
+}
+
+/// session set-up with foreign-session traffic sent before the session exists
+async fn early_setup(world: &World, tw: &Tweak, sc: &Sc, foreign_streams: &mut Vec<(Item, quinn::SendStream)>) -> Result<(wtransport::Connection, Raw, RawSession, Box<dyn std::any::Any>), String> {
+    let sid = sc.early_sid;
+    let early = sc.early;
+    let send_early = |raw: &Raw| {
+        let conn = raw.conn.clone();
+        async move {
+            let mut out: Vec<(Item, quinn::SendStream)> = vec![];
+            let mut keep = vec![];
+            if early & 1 != 0 {
+                let pl = payload(900, false, 6);
+                conn.send_datagram(bytes::Bytes::from(rc::datagram_encode(sid / 4, &pl))).map_err(|e| format!("early datagram: {e:?}"))?;
+            }
+            if early & 2 != 0 {
+                let mut s = conn.open_uni().await.map_err(|e| format!("{e:?}"))?;
+                let mut b = wt_uni_preamble(sid);
+                b.extend(payload(901, false, 6));
+                s.write_all(&b).await.map_err(|e| format!("{e:?}"))?;
+                out.push((Item { kind: 0, sid, live: false, ending: 0, payload_len: 6 }, s));
+            }
+            if early & 4 != 0 {
+                let (mut s, r) = conn.open_bi().await.map_err(|e| format!("{e:?}"))?;
+                let mut b = wt_bi_preamble(sid);
+                b.extend(payload(902, false, 6));
+                s.write_all(&b).await.map_err(|e| format!("{e:?}"))?;
+                keep.push(r);
+                out.push((Item { kind: 1, sid, live: false, ending: 0, payload_len: 6 }, s));
+            }
+            Ok::<_, String>((out, keep))
+        }
+    };
+    if sc.role_server {
+        let server_ep = world.wt_server(tw);
+        let delay = sc.early_when == 1;
+        let app = async {
+            let inc = server_ep.accept().await;
+            let req = inc.await.map_err(|e| format!("server incoming: {e:?}"))?;
+            if delay {
+                settle_ms(1_000).await;
+            }
+            req.accept().await.map_err(|e| format!("server accept: {e:?}"))
+        };
+        let peer = async {
+            let raw = Raw::connect(world, tw).await?;
+            let mut got = vec![];
+            if !delay {
+                let (o, k) = send_early(&raw).await?;
+                raw.hold(k);
+                got.extend(o);
+                settle_ms(200).await;
+            }
+            let (rs, late) = tokio::join!(raw.setup_client("localhost", "/"), async {
+                if delay {
+                    settle_ms(300).await;
+                    Some(send_early(&raw).await)
+                } else {
+                    None
+                }
+            });
+            if let Some(l) = late {
+                let (o, k) = l?;
+                raw.hold(k);
+                got.extend(o);
+            }
+            Ok::<_, String>((raw, rs?, got))
+        };
+        let (a, p) = within(10_000, async { tokio::join!(app, peer) }).await.ok_or("session setup did not finish within 10 s")?;
+        let sconn = a?;
+        let (raw, rs, got) = p?;
+        foreign_streams.extend(got);
+        Ok((sconn, raw, rs, Box::new(server_ep)))
+    } else {
+        let raw_ep = world.raw_server(tw);
+        let client_ep = world.wt_client(tw);
+        let server = async {
+            let raw = Raw::accept(raw_ep).await?;
+            let (o, k) = send_early(&raw).await?;
+            raw.hold(k);
+            settle_ms(300).await;
+            let rs = raw.setup_server(&rc::response_fields("200")).await?;
+            Ok::<_, String>((raw, rs, o))
+        };
+        let connect = async { client_ep.connect("https://localhost/").await.map_err(|e| format!("client connect: {e:?}")) };
+        let (s, c) = within(10_000, async { tokio::join!(server, connect) }).await.ok_or("session setup did not finish within 10 s")?;
+        let (raw, rs, got) = s?;
+        foreign_streams.extend(got);
+        Ok((c?, raw, rs, Box::new(client_ep)))
+    }
 }
 
 pub fn exec(sc: &Sc) -> Outcome {
@@ -237,10 +337,29 @@ pub fn scenarios(tier: Tier) -> Vec<Sc> {
                         let f = Item { kind, sid, live: false, ending, payload_len: if kind == 2 { len.min(1000) } else { len } };
                         let l = |k: u8| Item { kind: k, sid: 0, live: true, ending: 1, payload_len: 20 };
                         // before, between and after live traffic
-                        out.push(Sc { role_server: role, items: vec![f.clone(), l(0), l(1), l(2)] });
-                        out.push(Sc { role_server: role, items: vec![l(0), f.clone(), l(1), f.clone(), l(2)] });
-                        out.push(Sc { role_server: role, items: vec![l(2), l(1), l(0), f.clone()] });
+                        out.push(Sc { role_server: role, items: vec![f.clone(), l(0), l(1), l(2)], early: 0, early_when: 0, early_sid: 0 });
+                        out.push(Sc { role_server: role, items: vec![l(0), f.clone(), l(1), f.clone(), l(2)], early: 0, early_when: 0, early_sid: 0 });
+                        out.push(Sc { role_server: role, items: vec![l(2), l(1), l(0), f.clone()], early: 0, early_when: 0, early_sid: 0 });
                     }
+                }
+            }
+        }
+        // foreign traffic that arrives before the session exists (before the peer's request / while the application has not
+        // accepted yet / before the response): nothing has registered the live session id yet, the filter must still hold
+        for when in 0..2u8 {
+            if when == 1 && !role {
+                continue;
+            }
+            for early in 1..8u8 {
+                // an early bidi stream opened before the request would itself take stream id 0
+                if role && when == 0 && early & 4 != 0 {
+                    continue;
+                }
+                for &sid in if thorough { &foreign[..] } else { &foreign[..2] } {
+                    let l = |k: u8| Item { kind: k, sid: 0, live: true, ending: 1, payload_len: 20 };
+                    out.push(Sc { role_server: role, items: vec![l(2), l(0), l(1)], early, early_when: when, early_sid: sid });
+                    let f = Item { kind: 2, sid, live: false, ending: 0, payload_len: 5 };
+                    out.push(Sc { role_server: role, items: vec![f, l(2), l(1), l(0), l(2)], early, early_when: when, early_sid: sid });
                 }
             }
         }
@@ -254,7 +373,7 @@ pub fn scenarios(tier: Tier) -> Vec<Sc> {
                 }
             }
             items.push(Item { kind: 2, sid: 0, live: true, ending: 0, payload_len: 9 });
-            out.push(Sc { role_server: role, items });
+            out.push(Sc { role_server: role, items, early: 0, early_when: 0, early_sid: 0 });
         }
     }
     out
@@ -268,7 +387,7 @@ pub fn run_check(args: &Args) -> i32 {
     let rep = Report::new(
         args,
         "exploration",
-        "scenario = role x foreign item (uni stream / bidi stream / datagram naming a valid but non-existent session id in {4, 8, 2^22, 2^62-4}, payload 0 / 5 / 2000 bytes, streams left open / finished / reset after the header) placed before, between and after live-session traffic of all three kinds, plus mixed bursts of 2/5/9 foreign items; the application keeps accepting; oracle: no foreign payload is ever delivered, every foreign stream is refused with 0x3994bd84, live traffic is all delivered, the connection stays open, no panic",
+        "scenario = role x foreign item (uni stream / bidi stream / datagram naming a valid but non-existent session id in {4, 8, 2^22, 2^62-4}, payload 0 / 5 / 2000 bytes, streams left open / finished / reset after the header) placed before, between and after live-session traffic of all three kinds, plus mixed bursts of 2/5/9 foreign items, plus foreign datagram / uni / bidi traffic (every non-empty subset) sent before the session exists (before the peer's SETTINGS and request; while the request is pending because the server application accepts 1 s later; before the raw server's response); the application keeps accepting; oracle: no foreign payload is ever delivered, every foreign stream is refused with 0x3994bd84, live traffic is all delivered, the connection stays open, no panic",
     );
     rep.assume("session ids of the wrong stream class are connection errors and belong to C12; here only well-formed foreign ids are used");
     let scs = scenarios(args.tier);
